@@ -328,6 +328,7 @@ package iso7816
 //@   requires validNfc(nfc) && nfc.readFileMaxChunks >= 0 && nfc.readFileMaxTlvLength <= 65535
 //@   ensures "exact-file": err == nil && fileData != nil ==> len(fileData) == tlvTotal(ef(nfc)) && fileData === ef(nfc)[:len(fileData)]
 //@   ensures "not-found-only-if-chip-says-so": err == nil && fileData == nil ==> chipSaidNotFound(nfc, fileId)
+//@   ensures "a-returned-file-is-not-empty": err == nil && fileData != nil ==> len(fileData) >= 1
 //@   ensures "max-le-only-decreases": nfc.maxLe <= old(nfc.maxLe) && 0 <= nfc.maxLe
 //@   loop 1 invariant fileBuf != nil && nfc != nil && fileBuf === ef(nfc)[:len(fileBuf)] && len(fileBuf) <= len(ef(nfc))
 //@   loop 1 invariant "buffered-less-than-total": len(fileBuf) < totalBytes
